@@ -205,7 +205,7 @@ fn body() -> impl Strategy<Value = PBody> {
     prop_oneof![
         4 => Just(PBody::Return),
         1 => Just(PBody::Pass),
-        6 => (vec(0u8..11, 0..=3), prop_oneof![5 => Just(0u8), 2 => Just(1u8), 1 => Just(2u8), 1 => Just(3u8), 1 => Just(4u8)], prop_oneof![4 => Just(false), 1 => Just(true)])
+        6 => (vec(0u8..13, 0..=3), prop_oneof![5 => Just(0u8), 2 => Just(1u8), 1 => Just(2u8), 1 => Just(3u8), 1 => Just(4u8)], prop_oneof![4 => Just(false), 1 => Just(true)])
             .prop_map(|(blocks, form, second_yield)| PBody::Yield { blocks, form, second_yield }),
         1 => (0u8..2).prop_map(PBody::NestedYield),
     ]
@@ -568,6 +568,15 @@ fn render_body(r: &mut R, depth: usize, f: &PFunc) {
                         r.line(d, "try:");
                         r.line(d + 1, "x = 1");
                         r.line(d, "finally:");
+                        d += 1;
+                    }
+                    // the first yield sits in an except handler, a later one in the else / finally
+                    // block of the same try statement: source order decides which is "the" yield line
+                    11 | 12 => {
+                        r.line(d, "try:");
+                        r.line(d + 1, "x = 1");
+                        r.line(d, "except Exception:");
+                        closers.push((d, vec![if *b == 11 { "else:".to_string() } else { "finally:".to_string() }, "    yield other".to_string()]));
                         d += 1;
                     }
                     _ => {
